@@ -151,6 +151,7 @@ class Wire:
 
 class LockedDev(mports.BaseIOPort):
     """Custom device port per the documented API (_locking = True): byte-wise _send."""
+    two_step_read = True
     def _open(self, wire=None, newstyle=False, **kw):
         self.wire = wire
         self.newstyle = newstyle
@@ -170,13 +171,21 @@ class LockedDev(mports.BaseIOPort):
             raise OSError(5, DEVICE_READ_ERROR)
         if self.wire.buf:
             data = self.wire.buf[:]
-            del self.wire.buf[:]
+            if self.two_step_read:
+                # reading and clearing the device buffer are two steps: the port lock, which covers _send and
+                # _receive of ONE port object alike, is what keeps a send from landing in between
+                _yield('dev.recv')
+                del self.wire.buf[:]
+            else:
+                del self.wire.buf[:len(data)]
             self._parser.feed(data)
         if self.newstyle:
             return self._parser.get_message()
 
 
 class DevIn(mports.BaseInput):
+    two_step_read = False       # input and output halves are separate port objects: the device itself is atomic
+
     def _open(self, wire=None, newstyle=False, **kw):
         self.wire = wire
         self.newstyle = newstyle
